@@ -110,11 +110,16 @@ LenOKa(G, P1, a) == \A k \in DOMAIN a :
      /\ s.seq # <<>> => s.len = Len(s.seq)
      /\ s.len = -1 \/ e = -1 \/ s.len = e
 LinksOKa(G, P1, a) == LinkBag(MergedBy(G, a, Len(a))) = LinkBag(P1)
-CompsOKa(G, o, chs, a) ==
+\* "connected components are preserved": the partition of the post-state is the image of the
+\* partition of the pre-state under the merge map -- for the graphs as written (Comps) and for
+\* gfapy's own answers connected_components() before and after (whether these answers are the
+\* right partition of a given graph is C16's concern, not decided here)
+CompsOKa(G, P1, opre, o, chs, a) ==
   LET Map(n) == IF \E k \in DOMAIN chs : n \in Names(chs[k])
                 THEN a[CHOOSE k \in DOMAIN chs : n \in Names(chs[k])][2] ELSE n IN
-  /\ CompSets(o) = {{Map(n) : n \in K} : K \in Comps(G)}
-  /\ Len(o.cc) = Cardinality(Comps(G))
+  /\ Comps(P1) = {{Map(n) : n \in K} : K \in Comps(G)}
+  /\ CompSets(o) = {{Map(n) : n \in K} : K \in CompSets(opre)}
+  /\ Len(o.cc) = Cardinality(CompSets(o))
 
 C14Fails(c) ==
   LET G  == GraphOfObs(c.pre)
@@ -141,7 +146,7 @@ C14Fails(c) ==
   \cup (IF lOK # {} /\ (sOK = {} \/ sOK \cap lOK # {}) THEN {} ELSE {"C14.length"})
   \cup (IF kOK # {} /\ PosValid(o1) THEN {} ELSE {"C14.links"})
   \cup (IF RestBag(c.pre, members) = RestBag(o1, newNames) /\ c.pre.hdr = o1.hdr THEN {} ELSE {"C14.rest"})
-  \cup (IF \E a \in cbase : CompsOKa(G, o1, chs, a) THEN {} ELSE {"C14.components"})
+  \cup (IF \E a \in cbase : CompsOKa(G, P1, c.pre, o1, chs, a) THEN {} ELSE {"C14.components"})
   \cup (IF GraphOK(o1) THEN {} ELSE {"C14.graph"})
   \cup (IF c.m1.res # "ok" \/ (c.m2.res = "ok" /\ o2.dig = o1.dig /\ SameGraph(GraphOfObs(o2), P1))
         THEN {} ELSE {"C14.idempotent"})
